@@ -788,6 +788,16 @@ static Subtree ts_parser__reuse_node(
       continue;
     }
 
+    // A non-terminal extra may follow any token, so its first token does not
+    // confirm the reductions that were made before it: those were decided by
+    // the token that follows the extra, which may have changed. Re-derive the
+    // subtree that was reused just before it.
+    if (ts_subtree_extra(result) && ts_subtree_child_count(result) > 0) {
+      if (ts_parser__breakdown_top_of_stack(self, version)) {
+        *state = ts_stack_state(self->stack, version);
+      }
+    }
+
     if (!ts_subtree_external_scanner_state_eq(self->reusable_node.last_external_token, last_external_token)) {
       LOG("reusable_node_has_different_external_scanner_state symbol:%s", TREE_NAME(result));
       reusable_node_advance(&self->reusable_node);
